@@ -1163,3 +1163,69 @@ RS.rules.append(Rule('C10.R12', 'K-TYPE+K-TABLE', 'an abort requested by a trap 
                      'run after it by the Divert maximum (Continue < Break < Return < Interrupt < Exit < Abort), so a shell error / errexit / exit '
                      'raised in a trap action that runs right after `return`, `break` or `continue` still ends the script (C02.R3)', _c02_divert_max))
 RS.explanation += ' A command combines its own divert and that of the traps run after it by the maximum (R12 = C02.R3).'
+
+
+
+# ---------------------------------------------------------------------------------------
+# added after the audit C10h4 (`set -e; x=$(true) </nonexistent; echo continued $?` printed "continued 0")
+@RS.rule('C10.R13', 'K-GUARD', 'a failed redirection is not masked: in a command without a command name the redirections run in a subshell and their '
+         'failure comes back only as an exit status - $? takes the status of a command substitution in the assignments only on a path where '
+         'that redirection status was tested and found successful (or there is no redirection), so that the command fails and errexit applies')
+def r13(cx):
+    F = cx.F
+    fn = 'yash_semantics::command::simple_command::absent::execute_absent_target'
+    body = F.inlined(F.main_body(fn))
+    cx.fn(body.fn)
+    du = Q.DefUse(body)
+    pa = Q.find_calls(body, ['yash_semantics::command::simple_command::perform_assignments', 'yash_semantics::assign::perform_assignments'])
+    cx.require(pa, 'execute_absent_target no longer calls perform_assignments (anchor moved)')
+    from_assign = Q.forward_taint(body, {t['dest']['l'] for b, t in pa}, through_calls=Q.PROPAGATING_CALLS + Q.AWAIT_CALLS + Q.TRY_BRANCH +
+                                  [re.compile(r'option::Option::<T>::(unwrap_or|unwrap_or_else|unwrap_or_default|or|or_else|map_or|map_or_else|unwrap|expect)$')])
+    redirs = [l for l in range(1, len(body.locals)) if body.locals[l].get('name') in ('redirs',)]
+    n = 0
+    for w in Q.field_writes(body, 'yash_env::Env', 'exit_status'):
+        if w[3] != 'assign':
+            continue
+        blk, st = w[0], w[2]
+        srcs = {p_['l'] for p_ in Q.rvalue_places(st['rv'])}
+        if not (srcs & from_assign):
+            continue
+        # does the written value come ONLY from the assignments on this path? (a phi of both sources is decided by its defining blocks)
+        defs = []
+        for l in srcs & from_assign:
+            for db, dj, dn in du.defs.get(l, []):
+                if dj != 't' and dn.get('k') == 'assign' and any(p_['l'] in from_assign for p_ in Q.rvalue_places(dn['rv'])):
+                    defs.append((db, dn))
+        for l in srcs & from_assign:
+            for db, dj, dn in du.defs.get(l, []):
+                # `assignment_status.unwrap_or(redir_status)`: the value is chosen by a call
+                if dj == 't' and any((Q.operand_place(a_) or {}).get('l') in from_assign for a_ in dn['a']):
+                    defs.append((db, dn))
+        sites = defs or [(blk, st)]
+        for db, dn in sites:
+            n += 1
+            conds = Q.implied_conditions(F, body, du, db)
+            ok = False
+            succ_flags = Q.forward_taint(body, {t_['dest']['l'] for b_, t_ in Q.find_calls(body, [re.compile(r'semantics::ExitStatus::is_successful$')])})
+            for org, lab, e in conds:
+                org, lab = Q.peel_not(du, org, lab)
+                # `let redir_failed = !redirs.is_empty() && !status.is_successful(); .. if !redir_failed`: a flag computed from the test
+                if org['k'] == 'place' and not org['pl'].get('p') and org['pl']['l'] in succ_flags and body.locals[org['pl']['l']].get('ty') == 'bool':
+                    ok = True
+                if org['k'] == 'call' and Q.callee_is(org['t'], [re.compile(r'semantics::ExitStatus::is_successful$')]) and lab == ('bool', True):
+                    ok = True
+                if org['k'] == 'call' and Q.callee_is(org['t'], [re.compile(r'(Vec::<T, A>|slice::<impl \[T\]>)::is_empty$')]) and lab == ('bool', True):
+                    ok = True
+                if org['k'] == 'binop' and org['rv']['op'] in ('Eq',) and lab == ('bool', True) and \
+                        any(str(x.get('c')) in ('0', '0_i32') for x in (org['rv']['a'], org['rv']['b']) if isinstance(x, dict)):
+                    ok = True
+            cx.site('execute_absent_target: $? takes the status of the assignments at %s only after the redirection status was found successful: %s'
+                    % (body.loc(dn), ok))
+            if not ok:
+                cx.violation(fn, 'redirection-failure-masked', 'the status of a command substitution in the assignments overwrites the status of the '
+                             'redirection subshell without a test that the redirection succeeded: `set -e; x=$(true) </nonexistent; echo continued $?` '
+                             'prints the error and then "continued 0" (dash exits 2, bash 1; docs/src/termination.md)', loc=body.loc(dn))
+    cx.require(n >= 1, 'no write of $? from the assignment status was found in execute_absent_target (shape not understood)')
+
+
+RS.explanation += ' A failed redirection of a command without a command name is not masked by a command substitution status (R13).'
